@@ -76,7 +76,15 @@ func (g *c06Gen) msg(sym, method, params, meta string, notif bool) c06Msg {
 	g.n++
 	p := params
 	if meta != "" {
-		m := `"_meta":` + c06Meta(meta)
+		mj := c06Meta(meta)
+		// the same keys in another, equally valid JSON spelling
+		switch g.r.Intn(6) {
+		case 0:
+			mj = strings.ReplaceAll(mj, "io.modelcontextprotocol/", `io.modelcontextprotocol\/`)
+		case 1:
+			mj = strings.ReplaceAll(mj, "io.modelcontextprotocol/", `io.modelcontextprotocol\u002f`)
+		}
+		m := `"_meta":` + mj
 		if p == "" || p == "{}" {
 			p = "{" + m + "}"
 		} else {
